@@ -46,12 +46,14 @@ class C11(CheckBase):
             "at which the output device starts refusing writes is ENUMERATED over {0..min(L,64)} U {L-1, L, L+1} U "
             "{multiples of 4096 <= L, +-1} U 20 drawn values.  Injection: stdout is a regular file under "
             "RLIMIT_FSIZE = k with SIGXFSZ ignored (writes succeed up to k bytes, then fail with EFBIG); k = 0 also "
-            "via /dev/full; for extract-files / extract-unused the same limit hits the created host files.  Oracle: "
+            "via /dev/full, and a pipe (capacity 4096) whose reader takes k in {0, 1, drawn, 4096, 8192} bytes and "
+            "closes with SIGPIPE ignored (EPIPE; judged when L exceeds k + capacity + 4096); for extract-files / extract-unused the same limit hits the created host files.  Oracle: "
             "if fewer than L bytes arrived (or an extracted file is short/missing) the exit status is non-zero and "
             "stderr non-empty; k >= L must give exit 0 and identical output.  Non-trivial: a (command, input) "
             "pair for which at least one fault point 0 < k < L was enumerated (distinct = SHA-1 of the pair; the "
             "number of such fault points is reported as class 'fault-points(0<k<L)')")
-    assumptions = ("death by SIGPIPE on a closed pipe is the platform's convention, not an exit status, and is not used",
+    assumptions = ("death by SIGPIPE on a closed pipe is the platform's convention, not an exit status: the closed-pipe "
+                   "injection therefore runs with SIGPIPE ignored",
                    "uncompressed images only (the limit would also hit the temporary file of a .gz image)")
     exhaustive_note = "every fault offset k <= 64 (and L-1, L, L+1, 4096-multiples +-1) for each drawn (command, input)"
     min_nontrivial = {"quick": 80, "thorough": 2000}
@@ -132,6 +134,15 @@ class C11(CheckBase):
                 v.evaluations += 1
                 if L > 0:
                     self._judge_one(v, r, False, 0, L, case, dev="/dev/full")
+                # a pipe whose reader takes k bytes and goes away, SIGPIPE ignored (writes fail with EPIPE)
+                for k in sorted({0, 1, case["extra_k"][0] % (L + 1), 4096, 8192}):
+                    r, cap = runtool.run_closing_pipe(argv, sb.path, stdin=stdin, read_bytes=k)
+                    v.evaluations += 1
+                    if L > k + cap + 4096 or (k == 0 and L > 0):
+                        # more output than the reader took plus what the pipe can hold: some write was refused
+                        v.classes.append("closed-pipe-fault")
+                        if not self._judge_one(v, r, False, k, L, case, dev="closed pipe (EPIPE), reader took"):
+                            return v
         return v
 
     def _judge_one(self, v, r, arrived_all, k, L, case, dev="RLIMIT_FSIZE"):
